@@ -58,6 +58,24 @@ def dedup(stimuli):
     return out
 
 
+COUNT_CALLS = {"subsample"}                 # need true integer counts: no value scaling at all
+SUM_KINDS = {"sum"}
+
+
+def _compatible(pal, steps):
+    """A value palette is an exact homomorphism only for the calls it was designed for: counts must
+    stay integers for subsampling, and the `adversarial` images are not closed under addition."""
+    idp, valp = pal
+    calls = {s_["call"] for s_ in steps}
+    arith = calls & {"merge", "concat", "collapse", "norm", "rankdata", "pa", "transform"} or any(
+        s_["call"] == "read" and s_["args"].get("kind") in SUM_KINDS for s_ in steps)
+    if calls & COUNT_CALLS:
+        return [idp, "plain"]
+    if arith and valp == "adversarial":
+        return [idp, "plain"]
+    return [idp, valp]
+
+
 def to_driver_stimuli(behaviours, palettes, seed, all_palettes=False, tolerant=False, start_id=1):
     """Attach builds and palettes.  palettes: list of [idp, valp].  Quick: one palette per
     behaviour, rotating (offset by the seed) so that every palette is used; thorough: all."""
@@ -69,8 +87,11 @@ def to_driver_stimuli(behaviours, palettes, seed, all_palettes=False, tolerant=F
             t = dict(t)
             t.pop("lk", None)
             t["build"] = b.get("builds", {}).get(slot, "dense")
+            if slot == "a" and b.get("gmd"):
+                t["gmd"] = b["gmd"]
             init[slot] = t
         pals = palettes if all_palettes else [palettes[(i + seed) % len(palettes)]]
+        pals = [_compatible(p, b["steps"]) for p in pals]
         for p in pals:
             out.append({"id": n, "tag": b.get("tag", ""), "init": init, "steps": b["steps"], "pal": p,
                         "tolerant": tolerant})
